@@ -489,6 +489,7 @@ func TestReplay(t *testing.T) {
 	vt.Register(propRead)
 	vt.Register(propWrite)
 	vt.Register(propFaults)
+	vt.Register(propShared)
 	vt.Replay(t)
 }
 
